@@ -453,6 +453,12 @@ func ext۰reflect۰Value۰Set(fr *frame, args []value) value {
 func ext۰reflect۰valueInterface(fr *frame, args []value) value {
 	// Signature: func (v reflect.Value, safe bool) interface{}
 	v := args[0].(structure)
+	// a Value of interface kind (an element of []interface{}, a map value of
+	// map[string]interface{}) holds the dynamic value: Interface() returns that
+	// value, not an interface wrapped in an interface
+	if inner, ok := rV2V(v).(iface); ok && types.IsInterface(rV2T(v).t) {
+		return inner
+	}
 	return iface{rV2T(v).t, rV2V(v)}
 }
 
